@@ -154,6 +154,65 @@ def main(tier, seed):
                     if why and len(direct_bad) < 4:
                         direct_bad.append({"kind": "failing-input", "why": why, "database_size": size, "auto_index": auto, "preceding_operation": pre, "history": hist, "op": op,
                                            "bytes_before": len(bb), "bytes_after": len(ab), "calls": [f"{e[1]}.{e[2]}" for e in ev]})
+    # (a) an insert made while a STARTED, unexhausted iteration over the same database is alive (it = iter(db); next(it)): still append-only,
+    # nothing read, the same calls at every size; (b) insert_multiple fed by a GENERATOR that queries the database between its points (a get
+    # that stops at the first match leaves the file position in the middle of a file larger than one I/O buffer)
+    live_calls = {}
+    for size in (20, 400):
+        for auto in (True, False):
+            g = dbgen.Gen(seed + 9000 + size, {})
+            g.ids = 1
+            pts = g.points_batch(size, in_order=True)
+            for p in pts:
+                p["tags"]["pad"] = "x" * 30
+            hist = [("insert", pts, None, "multiple")]
+            t_last = max(p["time"] for p in pts)
+            newp = g.point(t_last + dbgen.SEC)
+
+            def start_iter(s):
+                it = iter(s.driver.db)
+                return [it, next(it), next(it)]
+            rec = iotie.recorded_run(tf, str(ck.work / f"live{size}{int(auto)}"), hist, ("insert", [newp], None), auto, pre_hook=start_iter)
+            raising_runs += 1
+            bb, ab, ev = rec["before_bytes"] or b"", rec["after_bytes"] or b"", rec["events"]
+            live_calls.setdefault(auto, {})[size] = len(ev)
+            why = None
+            if rec["out"] != ("nat", 1):
+                why = f"insert returned {rec['out']}"
+            elif not (ab.startswith(bb) and len(ab) > len(bb)):
+                why = "with a started iteration alive, the previous file content is not a byte-for-byte proper prefix of the new content"
+            elif any(is_read_call(e) for e in ev):
+                why = "with a started iteration alive, insert read existing data: " + str([f"{e[1]}.{e[2]}{e[3] or ''}" for e in ev if is_read_call(e)][:4])
+            if why and len(direct_bad) < 4:
+                direct_bad.append({"kind": "failing-input", "why": why, "database_size": size, "auto_index": auto, "state": "it = iter(db); next(it); next(it) - kept referenced",
+                                   "op": ("insert", [newp], None), "calls": [f"{e[1]}.{e[2]}" for e in ev][:40]})
+            # (b)
+            news = [g.point(t_last + (j + 2) * dbgen.SEC) for j in range(3)]
+            one = M.real_query(tf, ("S", "tags", [("k", "id")], ("cmp", "==", ("s", "1"))), {})
+
+            def fed_by_generator(s, _news=news, _one=one):
+                def gen():
+                    for p in _news:
+                        s.driver.db.get(_one)              # stops at the first stored row that matches
+                        yield M.real_point(tf, p)
+                return s.driver.db.insert_multiple(gen())
+            rec = iotie.recorded_run(tf, str(ck.work / f"gen{size}{int(auto)}"), hist, None, auto, do_op=fed_by_generator)
+            raising_runs += 1
+            bb, ab = rec["before_bytes"] or b"", rec["after_bytes"] or b""
+            why = None
+            if rec["out"] != ("nat", 3):
+                why = f"insert_multiple(<generator>) returned {rec['out']}"
+            elif not (ab.startswith(bb) and len(ab) > len(bb)):
+                why = "insert_multiple fed by a generator that reads the database between its points: the previous file content is not a byte-for-byte prefix of the new content"
+            elif rec["after"] is None or not iotie.same_points(rec["after"], (rec["before"] or []) + news):
+                why = "insert_multiple fed by a generator that reads the database between its points: the file does not decode to the old contents followed by the new points"
+            if why and len(direct_bad) < 4:
+                direct_bad.append({"kind": "failing-input", "why": why, "database_size": size, "auto_index": auto, "bytes_before": len(bb), "bytes_after": len(ab),
+                                   "op": "db.insert_multiple(p for p in points, with db.get(TagQuery().id == '1') evaluated before each point is yielded)", "points_inserted": news})
+    for auto, dct in live_calls.items():
+        if len(set(dct.values())) > 1 and len(direct_bad) < 4:
+            direct_bad.append({"kind": "failing-input", "why": "with a started iteration alive, the number of I/O calls of an insert depends on how many points are stored",
+                               "auto_index": auto, "calls_by_database_size": dct})
     # the number of calls must not depend on the size
     for key, d in per_point.items():
         if len(set(d.values())) > 1 and len(direct_bad) < 4:
